@@ -268,6 +268,20 @@ pub fn civil_probes(model: &Zone, years: &[i64], r: &mut Rng, n_random: usize, l
             v.push(Civ::from_ns(p));
         }
     }
+    // every instant at which a rule fires, whether or not anything changes there (a DST period may be empty or
+    // shorter than the offset difference): the wall clock readings around it under every offset of the zone
+    let offs = model.offsets();
+    for t in model.candidates(TS_MIN, TS_MAX, years) {
+        if t <= TS_MIN + 200_000 || t >= TS_MAX - 200_000 || limit_before.is_some_and(|lim| t >= lim - 3 * 86400) {
+            continue;
+        }
+        for &o in &offs {
+            let a = (t as i128 + o as i128) * NS;
+            for d in [-3600 * NS, -NS, -1, 0, 1, NS, 1800 * NS, 3599 * NS, 3600 * NS, 5400 * NS] {
+                v.push(Civ::from_ns(a + d));
+            }
+        }
+    }
     let min = crate::cal::MIN_DAY as i128 * crate::cal::NS_DAY;
     let max = (crate::cal::MAX_DAY as i128 + 1) * crate::cal::NS_DAY - 1;
     for k in 0..27 {
